@@ -206,4 +206,36 @@ theorem backend_linked_ip_decoder_src : backend_linked_ip_decoder = "UnmarshalBi
 
 theorem backend_dedicated_ip_decoder_src : backend_dedicated_ip_decoder = "ByteSlicesToIPs" := by decide
 
+/-! Production wiring (`internal/cmd`): which configured value reaches which component.  The long
+literals are hoisted into `def`s. -/
+
+def wantProfiledbNewArgs : String := "&profiledb.Config{ Logger: b.baseLogger.With(slogutil.KeyPrefix, \"profiledb\"), Storage: strg, ErrColl: b.errColl, Metrics: profDBMtrc, CacheFilePath: b.env.ProfilesCachePath, FullSyncIvl: c.FullRefreshIvl.Duration, FullSyncRetryIvl: c.FullRefreshRetryIvl.Duration, ResponseSizeEstimate: respSzEst, }"
+def wantProfileStorageArgs : String := "&backendpb.ProfileStorageConfig{ BindSet: b.bindSet, ErrColl: b.errColl, Logger: b.baseLogger.With(slogutil.KeyPrefix, \"profilestorage\"), GRPCMetrics: b.backendGRPCMtrc, Metrics: backendProfileDBMtrc, Endpoint: apiURL, APIKey: b.env.ProfilesAPIKey, ResponseSizeEstimate: respSzEst, MaxProfilesSize: b.env.ProfilesMaxRespSize, }"
+def wantRefreshWorkerArgs : String := "&agdservice.RefreshWorkerConfig{ Context: newCtxWithTimeoutCons(timeout), Logger: b.baseLogger.With(slogutil.KeyPrefix, \"profiledb_refresh\"), Refresher: profDB, Interval: c.RefreshIvl.Duration, RefreshOnShutdown: false, RandomizeStart: true, }"
+
+/-- `initProfileDB`: PROFILES_CACHE_PATH is the cache file, `full_refresh_interval` /
+`full_refresh_retry_interval` are the two intervals of `needsFullSync` (not swapped, not the refresh
+interval), and the database gets the response-size estimate `respSzEst`. -/
+theorem builder_profiledb_new_args_src : builder_profiledb_new_args = wantProfiledbNewArgs := by rfl
+
+/-- … the SAME `respSzEst` the backend storage gets (`estimate_wiring_necessary`), the bind set and
+PROFILES_MAX_RESP_SIZE. -/
+theorem builder_estimate_wiring_src : builder_profile_storage_args = wantProfileStorageArgs ∧
+    builder_estimate_source = "b.conf.RateLimit.ResponseSizeEstimate" := ⟨by rfl, by decide⟩
+
+/-- The refresh worker of the database runs under contexts made for `backend.timeout` (not for the
+refresh interval) by `newCtxWithTimeoutCons`, every `refresh_interval`. -/
+theorem builder_refresh_worker_args_src : builder_refresh_worker_args = wantRefreshWorkerArgs ∧
+    builder_timeout_source = "c.Timeout.Duration" ∧
+    builder_initial_refresh_args = "ctx, b.logger, profDB, timeout" := ⟨by rfl, by decide, by decide⟩
+
+/-- `newCtxWithTimeoutCons` creates its contexts with `ctxWithOptionalTimeout` only (`ctxDeadline`),
+never with `context.WithTimeout` directly. -/
+theorem ctx_cons_calls_src : ctx_cons_calls = "ctxWithOptionalTimeout" := by decide
+
+/-- `profiledb.New` hands the configured estimate to the file-cache storage, whose `Load` hands it
+to `toInternal` (`fromPb est`). -/
+theorem cache_estimate_path_src : profiledb_new_cache_args = "logger, c.CacheFilePath, c.ResponseSizeEstimate" ∧
+    filecache_load_return = "toInternal(fc, s.respSzEst)" := by decide
+
 end Agd.Tie.C14
